@@ -3,7 +3,7 @@
 NAME=$1; shift
 git -C /repo apply /verif/seeded/$NAME/patch.diff || exit 2
 for p in "$@"; do
-  /verif/check $p > /tmp/seedrun_${NAME}_$p.txt 2>&1; rc=$?
+  VERIF_NO_EVIDENCE=1 /verif/check $p > /tmp/seedrun_${NAME}_$p.txt 2>&1; rc=$?
   echo "$NAME $p rc=$rc $(grep -E 'VIOLATION|TOOL-FAILURE|FAILED-OBLIGATION' /tmp/seedrun_${NAME}_$p.txt | head -8 | cut -c1-260)"
 done
 git -C /repo checkout -- .
